@@ -75,6 +75,10 @@ def c13_2(ctx, ss):
             ctx.holds("C13.2", k, where(ff, cands[0][0]), f"top={val} ⇒ config['{key}'].format(mother=mother, daughters=daughters)", 3)
         else:
             ctx.violation("C13.2", k, where(ff, ff.node), f"with top={val} the descriptor is `{[txt(x[1])[:120] for x in cands]}`, expected `{want}`")
+    dflt = ff.node.args.defaults
+    okd = len(dflt) == 1 and isinstance(dflt[0], ast.Constant) and dflt[0].value is True
+    (ctx.holds if okd else ctx.violation)("C13.2", ckey(ff, None, "top-default"), where(ff, ff.node),
+                                          "format_descriptor renders the top-level pattern by default" if okd else "format_descriptor(top=…) no longer defaults to True")
     # to_string: fresh dictionary, top=True, single descriptor returned
     tf, tflow = fn(ss, DECAY, "DecayChain.to_string")
     calls = [c for c in pf.calls_in(tf.node) if txt(c.func) == "_expand_decay_modes"]
